@@ -1,8 +1,8 @@
-\* code as written (ConsumeInYieldBack = FALSE): FreshStart violated in 5 steps (F14)
+\* repaired tree (F14 fixed): every swallowed cancellation drops its result
 SPECIFICATION Spec
 CONSTANTS
   Kinds = {"park", "syncpark", "sleep", "yield", "io", "evsender", "rawio"}
-  MaxCalls = 2
-  ConsumeInYieldBack = FALSE
-INVARIANTS FreshStart
+  MaxCalls = 3
+  ConsumeInYieldBack = TRUE
+INVARIANTS FreshStart FirstCallClean
 CHECK_DEADLOCK FALSE
